@@ -46,7 +46,7 @@ def stats(cases):
     return st
 
 
-def run_open(res, codes, signature, clause_names, replay=None, extra_assumptions=()):
+def run_open(res, codes, signature, clause_names, replay=None, extra_assumptions=(), extra=None):
     def relevant(case, code, step):
         if case.get("kind") == "next_bb" and case.get("rule") != "default":
             return False
@@ -74,6 +74,7 @@ def run_open(res, codes, signature, clause_names, replay=None, extra_assumptions
         or c["dealer"] not in {p["seat"] for p in c["players"] if p["part"]},
         key=lambda c: json.dumps([c.get("kind"), c["max"], c["rule"], c["seat_map"], [(p["seat"], p["in"], p["bankroll"] > 0, p["part"]) for p in c["players"]],
                                   c["dealer"], c["sb"], c["bb"]]),
+        extra=extra,
         assumptions=["the seat manager's rotation itself is C04's subject: the model starts from the seat manager's state after it moved",
                      "newcomer / waiting / missed-hand bookkeeping of the monitor is computed by the harness from the history it drives"] + list(extra_assumptions))
 
